@@ -803,7 +803,10 @@ fn spawn_gc_worker(mut gc_rx: UnboundedReceiver<GCTask>, store: Store) {
                 }
             }
             #[cfg(xs_verif)]
-            crate::verif::emit(Some("gc"), "gc.done", serde_json::json!({}));
+            {
+                crate::verif::emit(Some("gc"), "gc.done", serde_json::json!({}));
+                crate::verif::waiting(Some("gc"), "recv");
+            }
         }
     });
 }
